@@ -116,9 +116,16 @@ def r_ledger(root):
     def _run(has_global, has_own, self_removed=False):
         log = []
         mm_ = {".name": "mm"}; m_ = {".name": "m", "._tx_metamodel": mm_}
-        if has_global: mm_["._tx_model_repository"] = {".remove_models": _pe.Callee("global", log)}
-        if has_own: m_["._tx_model_repository"] = {".remove_models": _pe.Callee("own", log)}
-        env = {_params[0]: [m_], _params[1]: ([m_] if self_removed else ["victim"]), "__functions__": _fns}
+        # the models to remove: one still under construction, one whose construction is finished (both were added by the failing load)
+        victims = [m_] if self_removed else [{".name": "victim under construction", "._tx_reference_resolver": None, "._tx_metamodel": mm_}, {".name": "finished victim", "._tx_metamodel": mm_}]
+        def _rec(tag):
+            def f(arg, *a_, **k_):
+                same = isinstance(arg, (list, tuple)) and len(arg) == len(victims) and all(x_ is y_ for x_, y_ in zip(arg, victims))
+                log.append(tag if same else "%s (asked to remove %s)" % (tag, [x_.get(".name") if isinstance(x_, dict) else x_ for x_ in arg] if isinstance(arg, (list, tuple)) else type(arg).__name__))
+            return _pe.PyFn(f)
+        if has_global: mm_["._tx_model_repository"] = {".remove_models": _rec("global")}
+        if has_own: m_["._tx_model_repository"] = {".remove_models": _rec("own")}
+        env = {_params[0]: [m_], _params[1]: victims, "__functions__": _fns}
         try: _pe.run_block(rm.body, env)
         except _pe.Unsupported as e: raise AnalysisError("remove_models_from_repositories: outside the evaluated subset: %s" % e)
         except _pe.Raised as e: log.append("raise " + e.cls)
